@@ -55,6 +55,8 @@ fn read_maxlen_stdfs(t: Tier) -> usize {
 #[derive(Clone, Copy, PartialEq, Eq, Debug)]
 enum Op {
     Read(usize),
+    /// Read::read_exact with a buffer of this length (a provided method a handle may override)
+    ReadExact(usize),
     ReadToEnd,
     Seek(SeekFrom),
 }
@@ -63,6 +65,7 @@ impl Op {
     fn name(&self) -> String {
         match self {
             Op::Read(n) => format!("read(buf {})", n),
+            Op::ReadExact(n) => format!("read_exact(buf {})", n),
             Op::ReadToEnd => "read_to_end".to_string(),
             Op::Seek(s) => format!("seek({:?})", s),
         }
@@ -70,6 +73,7 @@ impl Op {
     fn kind(&self) -> String {
         match self {
             Op::Read(_) => "read".to_string(),
+            Op::ReadExact(_) => "read_exact".to_string(),
             Op::ReadToEnd => "read_to_end".to_string(),
             Op::Seek(SeekFrom::Start(_)) => "seek(Start)".to_string(),
             Op::Seek(SeekFrom::Current(_)) => "seek(Current)".to_string(),
@@ -79,6 +83,7 @@ impl Op {
     fn encode(&self) -> String {
         match self {
             Op::Read(n) => format!("read:{}", n),
+            Op::ReadExact(n) => format!("read_exact:{}", n),
             Op::ReadToEnd => "read_to_end".to_string(),
             Op::Seek(SeekFrom::Start(n)) => format!("seek:start:{}", n),
             Op::Seek(SeekFrom::Current(n)) => format!("seek:current:{}", n),
@@ -89,6 +94,7 @@ impl Op {
         let parts: Vec<&str> = s.split(':').collect();
         match parts.as_slice() {
             ["read", n] => n.parse().ok().map(Op::Read),
+            ["read_exact", n] => n.parse().ok().map(Op::ReadExact),
             ["read_to_end"] => Some(Op::ReadToEnd),
             ["seek", "start", n] => n.parse().ok().map(|n| Op::Seek(SeekFrom::Start(n))),
             ["seek", "current", n] => n.parse().ok().map(|n| Op::Seek(SeekFrom::Current(n))),
@@ -113,6 +119,9 @@ fn alphabet(len: usize, extreme: bool) -> Vec<Op> {
         push(Op::Read(n));
     }
     push(Op::ReadToEnd);
+    for n in [1, len, len + 1] {
+        push(Op::ReadExact(n));
+    }
     for n in [0, 1, len as u64, len as u64 + 2] {
         push(Op::Seek(SeekFrom::Start(n)));
     }
@@ -162,6 +171,13 @@ fn apply<H: Read + Seek + ?Sized>(h: &mut H, op: Op) -> Out {
                     Out::Data(buf)
                 },
                 Ok(k) => Out::Over(k),
+                Err(e) => Out::Err(format!("{:?}", e.kind())),
+            }
+        },
+        Op::ReadExact(n) => {
+            let mut buf = vec![0xAAu8; n];
+            match h.read_exact(&mut buf) {
+                Ok(()) => Out::Data(buf),
                 Err(e) => Out::Err(format!("{:?}", e.kind())),
             }
         },
@@ -255,13 +271,16 @@ struct Run {
     edge: bool,
     /// oracle positions after each step
     positions: Vec<u64>,
+    /// the oracle and a file legitimately part ways after this sequence (see read_exact beyond the end): it is
+    /// judged as it stands and not extended
+    cut: bool,
 }
 
 /// Drive handle and Cursor in lock-step; stops at the first divergence.
 fn run_seq(h: &mut dyn ReadSeek, content: &[u8], ops: &[Op]) -> Run {
     let mut cur = Cursor::new(content.to_vec());
     let len = content.len() as u64;
-    let mut r = Run { outs: Vec::with_capacity(ops.len()), probes: vec![], div: None, calls: 0, edge: false, positions: Vec::with_capacity(ops.len()) };
+    let mut r = Run { outs: Vec::with_capacity(ops.len()), probes: vec![], div: None, calls: 0, edge: false, positions: Vec::with_capacity(ops.len()), cut: false };
     for (i, &op) in ops.iter().enumerate() {
         let pos = cur.position();
         let want = apply(&mut cur, op);
@@ -283,16 +302,25 @@ fn run_seq(h: &mut dyn ReadSeek, content: &[u8], ops: &[Op]) -> Run {
             r.div = Some((i, sig));
             return r;
         }
-        if both_failed {
-            // position must be unchanged after a failed seek: observe through seek(Current(0))
+        // (a failed read_exact from a position beyond the end: Cursor pulls its position back to the end, a file
+        // has no reason to move - not probed)
+        let probe_ok = !(matches!(op, Op::ReadExact(_)) && pos > len);
+        if both_failed && !probe_ok {
+            r.cut = true;
+            return r;
+        }
+        if both_failed && probe_ok {
+            // the position after a call that failed on both sides (unchanged after a failed seek, at the end after a
+            // failed read_exact - whatever Cursor does): observe through seek(Current(0))
             let probe = Op::Seek(SeekFrom::Current(0));
             let pw = apply(&mut cur, probe);
             let pg = apply(h, probe);
             r.calls += 1;
             let bad = match (&pw, &pg) {
-                (_, Out::Panic(_)) => Some(format!("{}: panic probing the position after a failed seek", op.kind())),
+                (_, Out::Panic(_)) => Some(format!("{}: panic probing the position after a failed call", op.kind())),
                 (Out::Pos(a), Out::Pos(b)) if a == b => None,
-                _ => Some(format!("{}: position changed by a failed seek", op.kind())),
+                _ if matches!(op, Op::Seek(_)) => Some(format!("{}: position changed by a failed seek", op.kind())),
+                _ => Some(format!("{}: position after the failed call differs from Cursor's", op.kind())),
             };
             r.probes.push((i, pw, pg));
             if let Some(sig) = bad {
@@ -567,7 +595,7 @@ where
                             }
                         },
                         None => {
-                            if level < maxlen {
+                            if level < maxlen && !r.cut {
                                 let keep = match shard {
                                     Some((s, ns)) if level == 2 => owner(ci, &seq, ns) == s,
                                     _ => true,
